@@ -521,4 +521,10 @@ QualOK == IsSig => LET q == QualName(path) IN
 SigOK == IsSig => /\ QualOK
                   /\ Dump => PrintT("@@" \o ToJson([mode |-> "sig", params |-> params, path |-> path, leaf |-> leaf,
                                                     qualname |-> QualName(path)]))
+
+B_Print == ExprCase => Len(RefText(E)) > 0
+B_Impl == ExprCase => Len(ImplText(E)) > 0
+B_Parse == ExprCase => Parse(RefText(E)).k # "zz"
+B_Norm == ExprCase => Norm(E).k # "zz"
+B_Tags == ExprCase => Cardinality(Tags(E)) < 10 /\ (Foldish(E) \/ TRUE)
 =============================================================================
